@@ -85,7 +85,7 @@ Theorem C02_upload_in_step : forall w u path chunks r1 r2 rest x1 x2 x3 ip port,
   accepts_transfer r2 x2 x3 ->
   exists w', step w (AUpload u path chunks None) = (OReturn (RvReplies [x1; x2; x3]), w') /\
     insync w' rest /\ w_data w' = None /\ w_cfg w' = w_cfg w /\
-    net_out_bytes (io_events (skipn (length (w_trace w)) (w_trace w'))) = concat chunks /\
+    net_out_bytes (io_events (skipn (length (w_trace w)) (w_trace w'))) = concat (upto_empty chunks) /\
     wire_events (skipn (length (w_trace w)) (w_trace w')) =
       [WLine (setup_line (w_cfg w)); WReply x1; WLine (upverb_bytes u ++ SP :: path); WReply x2; WReply x3] /\
     data_events (skipn (length (w_trace w)) (w_trace w')) =
